@@ -1,9 +1,11 @@
 """C01: model codecs round-trip every admissible value and report its exact size."""
 import hashlib
+import re
 import signal
+import sys
 import time
 
-from .. import codec
+from .. import codec, common
 from ..common import blit, coq_eval
 
 MANIFEST = {
@@ -495,6 +497,43 @@ def run(check, unrecognised):
 			check.fail(f'module-import:{name}', f'codec module or schema of {name} cannot be loaded: {type(ex).__name__}: {ex}', {'network': name})
 			continue
 		run_network(check, net, per_class, mutants)
+	if check.tier == 'thorough':
+		huge_value_case(check)
+
+
+HUGE_SCRIPT = common.VERIF / 'harness' / 'replay_scripts' / 'c01_reencode_4gib_nem.py'
+
+
+def huge_value_case(check):
+	"""P at the one place where the shipped schemas can overflow a size member: all computed size members are 4 bytes wide, so a value of
+	2^32 bytes decodes and cannot be encoded again (Props/C01.v: decoded_reencodes_partial carries the bound as `small tm 2^32 v`).
+	Run in a subprocess (about 10 GB) and only when the machine has the memory for it."""
+	try:
+		available = next(int(line.split()[1]) for line in open('/proc/meminfo', encoding='ascii') if line.startswith('MemAvailable:')) // 1024
+	except (OSError, StopIteration, ValueError):
+		available = 0
+	if available < 24000:
+		check.extra['huge_value_case'] = f'skipped: {available} MB available, 24000 wanted'
+		return
+	env = common.impl_env()
+	status, out = common.run([sys.executable, str(HUGE_SCRIPT)], 900, env=env)
+	result = re.search(r'RESULT decoded=(\w+) reencoded=(\w+) error=(\S+)', out or '')
+	control = re.search(r'CONTROL reencoded=(\w+) stable=(\w+)', out or '')
+	check.extra['huge_value_case'] = (out or '')[-300:] if status == 0 else f'status {status}: {(out or "")[-300:]}'
+	if status != 0 or not result or not control:
+		check.notes.append('huge value case did not complete (resources); not counted')
+		return
+	check.case('nem:huge-value', ('TransferTransactionV1', 2**32 - 8))
+	check.case('nem:huge-value', ('TransferTransactionV1', 2**32 - 9))
+	replay_data = {'network': 'nem', 'class': 'TransferTransactionV1', 'op': 'huge-value', 'script': str(HUGE_SCRIPT),
+		'how': 'python <script> with /repo/sdk/python importable (about 10 GB of memory)'}
+	if result.group(1) == 'True' and result.group(2) != 'True':
+		check.fail('decoded-not-encodable:TransferTransactionV1:message-of-2^32-minus-8-bytes',
+			f'nem.TransferTransactionV1: a buffer of bytes with a message of 2^32 - 8 bytes decodes, the decoded value does not re-encode ({result.group(3)} '
+			'at message_envelope_size)', replay_data)
+	if control.group(1) != 'True' or control.group(2) != 'True':
+		check.fail('decode-encode-decode:TransferTransactionV1:message-of-2^32-minus-9-bytes',
+			'nem.TransferTransactionV1: with one message byte fewer the value must re-encode and be stable', dict(replay_data, control=control.group(0)))
 
 
 def replay(data):
